@@ -7,6 +7,13 @@ from ..harness import Part, step_budget
 from .. import gen, gates, gen_emul, refexec, refsim
 from .c03 import ref_states
 
+def _msgkey(e):
+    """Short stable key of an error message (digits and quoted names removed)."""
+    import re
+
+    return re.sub(r"[0-9]+|'[^']*'", "#", str(e))[:40]
+
+
 PROPERTY = "C08"
 RULE = (
     "Two generators: (a) unfiltered prepare/measure/subcircuit/X placements over loops with counts 0-3 (literal), "
@@ -72,17 +79,17 @@ def check(case):
     natives = gates.make_gates(gate_seed)
     st_, c = guard(parse, text, inject_pulses=natives, what="parse")
     if st_ == "err":
-        raise Violation("rejected-valid-program", f"parse: {c}\n--- program:\n{text}")
+        raise Violation("rejected-valid-program", f"parse: {c}\n--- program:\n{text}", where="parse:" + _msgkey(c))
     if env:
         st_, c = guard(fill_in_let, c, dict(env), what="fill_in_let")
         if st_ == "err":
-            raise Violation("rejected-valid-program", f"fill_in_let: {c}\n--- overrides {env}\n--- program:\n{text}")
+            raise Violation("rejected-valid-program", f"fill_in_let: {c}\n--- overrides {env}\n--- program:\n{text}", where="fill_in_let:" + _msgkey(c))
     ctx = f"--- overrides {env}\n--- program:\n{text}"
     np.random.seed(case.get("np_seed", 1))
     with step_budget(2000 * (size + len(V) + 50) + 10**6):
         st_, res = guard(run_jaqal_circuit, c, what="run_jaqal_circuit")
     if st_ == "err":
-        raise Violation("rejected-valid-program", f"run: {res}\n{ctx}")
+        raise Violation("rejected-valid-program", f"run: {res}\n{ctx}", where="run:" + _msgkey(res))
     _check_result(res, V, nsub, n, visits, ctx, "emulator")
     # hardware output list
     ch = gen.Chooser(case.get("outs_seed", 0))
